@@ -6,8 +6,12 @@ Three kinds of cases:
   simulator's ``random_state`` or the global ``np.random`` functions are replaced by deterministic
   sources fed from the case), a history of operations; the last operation is run once without a
   fault and then once for EVERY fault point (each internal call of `simulation.py` made to fail in
-  turn, before it starts and after it returned).  State after every run is compared with the Lean
-  model (`Drivers/C20.lean`, the definitions of `FDAModel/Simulation.lean`) exactly.
+  turn, before it starts and after it returned).  What is compared with the Lean model
+  (`Drivers/C20.lean`, the definitions of `FDAModel/Simulation.lean`) is BEHAVIOUR only: the outcome and
+  the three datasets after every fault-free operation (exact), and for every fault point the
+  implementation has — whatever their number and names — the outcome (exception class, datasets after
+  the failure, every step of the continued history) must be one of the outcomes the model allows for
+  that operation.  The internal call trace and the number of fault points are not compared.
 * ``real``      the genuine simulators (KarhunenLoeve / Brownian) with their genuine generators;
   call-level fault enumeration without a model, oracle only.
 * ``line``      the same, but the exception is raised at the k-th executed *line* of
@@ -404,8 +408,10 @@ def _gen_scripted(rng: Rng):
         data = dict(multi=True, comps=comps)
     ops = []
     for _ in range(rng.choice([0, 0, 1, 1, 2])):
-        f = rng.choice([None, None, rng.randint(0, 40)])
-        ops.append(_gen_op(rng, comps, fail=f))
+        rng.choice([None, None, rng.randint(0, 40)])  # (kept for the stability of the case stream)
+        # earlier operations run without fault: a positional fault index depends on the shape of the code;
+        # failures inside a history are covered by the continued histories after every fault of the last op
+        ops.append(_gen_op(rng, comps, fail=None))
     ops.append(_gen_op(rng, comps, op=rng.choice(["C", "C", "C", "S", "N"]), fail="all"))
     # the history CONTINUES after the last operation — after the fault-free run and after every failed run
     tail = [_gen_op(rng, comps, op=o, fail=None) for o in rng.choice([["S"], ["S"], ["N", "S"], ["C"], ["S", "C"], []])]
@@ -630,6 +636,20 @@ class _Obs:
                 viol.append(dict(clause="unsupported_2d_rejected", entry=entry, causes=["success"],
                                  msg="sparsification of data whose components are all 2-D is documented as unsupported but did not raise"))
         if status != "ok":
+            # whatever the simulator EXPOSES after a failed call must still be what it claims to be: a new
+            # noisy_data object is source + drawn noise, a new sparse_data object a sparsified version of its source
+            # (no half-built attribute: e.g. a container created first and filled component by component)
+            noisy, sparse = getattr(sim, "noisy_data", None), getattr(sim, "sparse_data", None)
+            v0 = len(viol)
+            if op in ("N", "C") and noisy is not None and noisy is not self.n0 and self.d0 is not None:
+                _check_noise(viol, entry, self.d0, noisy, r, Zs, exact)
+            if op in ("S", "C") and sparse is not None and sparse is not self.s0:
+                src = self.d0 if op == "S" else noisy
+                if src is not None:
+                    _check_sparse(viol, entry, src, sparse)
+            for v in viol[v0:]:
+                v["msg"] = f"after {how} the simulator exposes a half-built result: " + v["msg"]
+                v.setdefault("causes", []).append("exposed_after_failure")
             return
         noisy, sparse = getattr(sim, "noisy_data", None), getattr(sim, "sparse_data", None)
         if op in ("N", "C"):
@@ -942,33 +962,49 @@ def compare(case, impl, model):
     ds = []
     if len(impl["runs"]) != len(model["runs"]):
         return [f"{len(impl['runs'])} runs vs model {len(model['runs'])}"]
+    # --- fault-free history: outcome and the three datasets after every operation (exact).  The internal call
+    #     trace and the number of fault points are the SHAPE of the code, not its behaviour: they are not compared.
     for i, (a, b) in enumerate(zip(impl["runs"], model["runs"])):
-        for key in ("ticks", "trace", "state"):
-            if a[key] != b[key]:
-                ds.append(f"op {i} ({case['ops'][i]['op']}, fail={case['ops'][i]['fail']}): {key} impl {str(a[key])[:200]} vs model {str(b[key])[:200]}")
+        if a["state"] != b["state"]:
+            ds.append(f"op {i} ({case['ops'][i]['op']}): state impl {str(a['state'])[:200]} vs model {str(b['state'])[:200]}")
         if _cls(a["status"]) != _cls(b["status"]):
             ds.append(f"op {i}: status impl {a['status']} ({a.get('msg')}) vs model {b['status']}")
     for j, (a, b) in enumerate(zip(impl.get("base_tail", []), model.get("base_tail", []))):
-        for key in ("ticks", "state"):
-            if a[key] != b[key]:
-                ds.append(f"history continued after the fault-free run, step {j + 1}: {key} impl {str(a[key])[:200]} vs model {str(b[key])[:200]}")
+        if a["state"] != b["state"]:
+            ds.append(f"history continued after the fault-free run, step {j + 1}: state impl {str(a['state'])[:200]} vs model {str(b['state'])[:200]}")
         if _cls(a["status"]) != _cls(b["status"]):
             ds.append(f"history continued after the fault-free run, step {j + 1}: status impl {a['status']} ({a.get('msg')}) vs model {b['status']}")
-    if len(impl["faults"]) != len(model["faults"]):
-        ds.append(f"{len(impl['faults'])} fault points vs model {len(model['faults'])}")
-    else:
-        for k, (a, b) in enumerate(zip(impl["faults"], model["faults"])):
-            for key in ("ticks", "label", "state"):
-                if a[key] != b[key]:
-                    ds.append(f"last op, fault point {k}: {key} impl {str(a[key])[:200]} vs model {str(b[key])[:200]}")
-            if _cls(a["status"]) != _cls(b["status"]):
-                ds.append(f"last op, fault point {k}: status impl {a['status']} ({a.get('msg')}) vs model {b['status']}")
-            for j, (ta, tb) in enumerate(zip(a.get("tail", []), b.get("tail", []))):
-                if ta["state"] != tb["state"] or _cls(ta["status"]) != _cls(tb["status"]):
-                    ds.append(f"history continued after the failure at fault point {k}, step {j + 1}: impl {ta['status']} {str(ta['state'])[:160]} vs model {tb['status']} {str(tb['state'])[:160]}")
+    # --- failures: whatever fault points the implementation has (their number and names are free), the observable
+    #     outcome of each — exception class, data / noisy_data / sparse_data after the failure, and every step of the
+    #     continued history — must be one of the outcomes the model allows for this operation (its abstract phases:
+    #     nothing committed / noisy committed / everything committed, each with its continuation)
+    allowed = {_outcome(b) for b in model["faults"]}
+    for k, a in enumerate(impl["faults"]):
+        if _outcome(a) not in allowed:
+            ph = _phase(a, impl)
+            ds.append(f"last op, implementation fault point {k} ({a['label']}): outcome {a['status']} / state {str(a['state'])[:160]} / continued history "
+                      f"{[(t['status'], str(t['state'])[:60]) for t in a.get('tail', [])]} (phase: {ph}) is none of the {len(allowed)} outcomes the model allows")
             if len(ds) > 4:
                 break
     return ds[:6]
+
+
+def _outcome(r):
+    return (_cls(r["status"]), r["state"], tuple((_cls(t["status"]), t["state"]) for t in r.get("tail", [])))
+
+
+def _phase(fault, impl):
+    """abstract phase of a failure, read off the observable state: which of the datasets the failed call committed"""
+    n_ops = len(impl["runs"])
+    before = impl["runs"][n_ops - 2]["state"].split("#") if n_ops >= 2 else None
+    after_ok = impl["runs"][n_ops - 1]["state"].split("#")
+    st = fault["state"].split("#")
+    if st == after_ok:
+        return "everything committed"
+    if before is not None and st == before:
+        return "nothing committed"
+    names = ("data", "noisy_data", "sparse_data")
+    return "committed: " + ",".join(n for n, x, y in zip(names, st, after_ok) if x == y and (before is None or x != before[names.index(n)])) if before is not None else "partly committed"
 
 
 # --------------------------------------------------------------------------
@@ -1001,6 +1037,8 @@ def classify(case, impl):
         tags.append("nofault:" + _cls(base["status"]))
         n = len(impl["faults"])
         tags.append("fault_points:" + ("0" if n == 0 else "1-19" if n < 20 else "20-49" if n < 50 else "50+"))
+        for ph in sorted({_phase(f, impl) for f in impl["faults"]}):
+            tags.append("failure_phase:" + ph)
         if base["trace"].count("rchoice,") > sum(len(c) for c in case["ops"][-1]["SS"]):
             tags.append("fallback_taken")
         op = case["ops"][-1]
